@@ -232,6 +232,31 @@ func getAll(r protoreflect.Message, depth int) string {
 	return strings.Join(parts, ";")
 }
 
+// nilOutMapValue sets the same entry of the same message-valued map to a nil
+// pointer in every copy. It reports whether it found such a map.
+func nilOutMapValue(t *simhook.Tape, copies ...proto.Message) bool {
+	first := reflect.ValueOf(copies[0]).Elem()
+	var cands []int
+	for i := 0; i < first.NumField(); i++ {
+		f := first.Field(i)
+		if f.Kind() == reflect.Map && f.Type().Elem().Kind() == reflect.Pointer && f.Len() > 0 && first.Type().Field(i).PkgPath == "" {
+			cands = append(cands, i)
+		}
+	}
+	if len(cands) == 0 {
+		return false
+	}
+	fi := cands[t.Draw("nilmap-field", len(cands))]
+	keys := first.Field(fi).MapKeys()
+	sort.Slice(keys, func(i, j int) bool { return fmt.Sprint(keys[i].Interface()) < fmt.Sprint(keys[j].Interface()) })
+	k := keys[t.Draw("nilmap-key", len(keys))]
+	for _, c := range copies {
+		f := reflect.ValueOf(c).Elem().Field(fi)
+		f.SetMapIndex(k, reflect.Zero(f.Type().Elem()))
+	}
+	return true
+}
+
 func lenOrNil(v reflect.Value) string {
 	switch v.Kind() {
 	case reflect.Pointer, reflect.Interface:
@@ -259,17 +284,35 @@ func runReaders(c *simrun.Ctx) *simrun.Violation {
 	canon := simval.Canon(av)
 	useStruct := t.Chance("build-struct", 1, 2)
 	emptyNotNil := t.Chance("empty-notnil", 1, 3)
+	emptyCap := []int{0, 1, 4}[t.Draw("empty-cap", 3)]
+	truncate := t.Chance("truncate-lists", 1, 3)
+	// choices of the truncation history are drawn once and replayed for every
+	// copy, so that shared message, private copy and equal peer are built the
+	// same way (same nil-versus-empty and capacity choices) and every read
+	// result is comparable
+	var histDraws []int
 	build := func() proto.Message {
-		// shared message, private copy and equal peer are built the same way
-		// (same nil-versus-empty choices), so every read result is comparable
-		h := &simval.History{T: t}
+		ht := t
+		if histDraws != nil {
+			ht = simhook.NewReplayTape(histDraws)
+		}
+		start := len(t.Rec)
+		h := &simval.History{T: ht}
 		var m proto.Message
 		var err error
 		if useStruct {
 			h.EmptyNotNil = emptyNotNil
+			h.EmptyCap = emptyCap
 			m, err = h.BuildStruct(av, mt)
 		} else {
+			h.TruncateLists = truncate
 			m, err = h.BuildReflect(av, mt)
+		}
+		if histDraws == nil {
+			histDraws = append([]int{}, t.Values()[start:]...)
+			if histDraws == nil {
+				histDraws = []int{}
+			}
 		}
 		if err != nil {
 			return nil
@@ -285,6 +328,18 @@ func runReaders(c *simrun.Ctx) *simrun.Violation {
 	if shared == nil || private == nil || equalPeer == nil || unequalPeer == nil {
 		st.Add("runs_discarded_build_mismatch", 1)
 		return nil
+	}
+	if useStruct && emptyNotNil && emptyCap > 0 || !useStruct && truncate {
+		st.Add("fault_empty_lists_with_spare_capacity", 1)
+	}
+	if t.Chance("nil-map-value", 1, 8) {
+		// a message-valued map entry whose value is a nil pointer: the state a
+		// key-only map entry on the wire leaves behind on the current tree.
+		// Reads may panic on it (property C09's business); they must do so
+		// identically for the sequential reader and must not write.
+		if nilOutMapValue(t, shared, private, equalPeer) {
+			st.Add("fault_nil_message_map_value", 1)
+		}
 	}
 	env := &opEnv{equalPeer: equalPeer, unequalPeer: unequalPeer}
 	if rt, err := protoregistry.GlobalTypes.FindMessageByName(md.FullName()); err == nil {
